@@ -304,7 +304,13 @@ func (g *routerGen) segment(opt bool, kindBias int) *Sx {
 		}
 		return T("seg", o, T("params", g.regexParam(name(), genRe(rng, 3))))
 	}
-	switch rng.Intn(7) {
+	switch rng.Intn(10) {
+	case 7: // a regex-constrained bind next to the match-all (finding F21: must be rejected)
+		return T("seg", o, T("params", T("p", X(name()), T("lit", X("**"))), g.regexParam(name()+"3", T("plus", T("lit", X("z"))))))
+	case 8: // ... after a capture option
+		return T("seg", o, T("params", T("p", X(name()), T("lit", X("**"))), T("p", X("capture"), T("lit", X("2"))), g.regexParam("w", T("plus", T("lit", X("z"))))))
+	case 9: // a further literal option is ignored
+		return T("seg", o, T("params", T("p", X(name()), T("lit", X("**"))), T("p", X("opt"), T("lit", X("v")))))
 	case 0:
 		return T("seg", o, T("bind", X("**")))
 	case 1:
